@@ -1,12 +1,210 @@
-From Coq Require Import ZArith List Bool Lia.
+(* C15 - the property statements, assembled from the lemma files, each with a non-vacuity example. *)
+From Coq Require Import ZArith List Bool Lia Relations Permutation QArith.
 Import ListNotations.
 Require Import MV.Lib.Base MV.C15.Model.
+Require Export MV.C15.ProofsBase MV.C15.ProofsCycle MV.C15.ProofsAll MV.C15.ProofsBoundary MV.C15.ProofsMap
+               MV.C15.ProofsFeat.
 Local Open Scope Z_scope.
 
-Lemma key_add_In k l x : In x (key_add k l) <-> x = k \/ In x l.
+(* ------------------------------------------------------------------ C15_cycle *)
+(* a closed walk along border EDGES from [start], visiting each border vertex of the loop of [start] exactly once *)
+Definition border_cycle_of (s : surf) (start : Z) (vb : list Z) (eb : list (option Z)) : Prop :=
+  hd 0 vb = start /\ NoDup vb /\ incl vb (s_bverts s)
+  /\ (forall v, In v vb <-> bconn s start v)
+  /\ length eb = length vb
+  /\ (forall i, (i < length vb)%nat ->
+        exists e, nth i eb None = Some e /\ In e (s_bedges s)
+                  /\ badj s (nth i vb 0) (nth (S i) (vb ++ [start]) 0)
+                  /\ edge_id s (nth i vb 0, nth (S i) (vb ++ [start]) 0) = Some e)
+  /\ NoDup eb
+  /\ (forall e a b, In e (s_bedges s) -> edge_at s e = Some (a, b) -> In a vb \/ In b vb -> In (Some e) eb).
+
+Lemma is_cycle_border_cycle s (W : wf s) start vb eb : is_cycle s start vb eb -> border_cycle_of s start vb eb.
 Proof.
-  unfold key_add, memz. destruct (existsb (Z.eqb k) l) eqn:E.
-  - split; [tauto|]. intros [->|H]; [|exact H].
-    apply existsb_exists in E as [y [Hy Hk]]. apply Z.eqb_eq in Hk. now subst.
-  - rewrite in_app_iff. simpl. intuition.
+  intros C. pose proof C as [H1 [H2 [H3 [H4 [H5 H6]]]]].
+  destruct (cycle_edges s W start vb eb C) as [E1 [E2 E3]].
+  split; [exact H1|]. split; [exact H4|]. split; [exact H5|].
+  split; [apply (cycle_is_loop s W start vb eb C)|].
+  split; [exact E1|]. split; [exact E2|]. split; [exact E3|].
+  apply (cycle_edges_complete s W start vb eb C).
+Qed.
+
+Lemma cycle_thm : forall s start, wf_b s = true -> In start (s_bverts s) ->
+  exists vb eb, extract_border_cycle s (Some start) = Outcome (CycOk vb eb) /\ border_cycle_of s start vb eb.
+Proof.
+  intros s start Wb Hs. pose proof (wf_b_wf s Wb) as W.
+  destruct (cycle_ok s W start Hs) as [vb [eb [E C]]]. exists vb, eb. split; [exact E|].
+  now apply is_cycle_border_cycle.
+Qed.
+
+Lemma cycle_other_thm : forall s, wf_b s = true ->
+  (s_bverts s = [] -> forall o, extract_border_cycle s o = Outcome CycEmpty)
+  /\ (s_bverts s <> [] -> forall start, ~ In start (s_bverts s) ->
+        extract_border_cycle s (Some start) = Outcome CycNotOnBorder)
+  /\ (s_bverts s <> [] -> extract_border_cycle s None = extract_border_cycle s (Some (hd 0 (s_bverts s)))).
+Proof.
+  intros s Wb. pose proof (wf_b_wf s Wb) as W. split; [|split].
+  - intros E o. now apply cycle_no_border.
+  - intros N start H. now apply cycle_not_on_border.
+  - intros N. now apply cycle_default.
+Qed.
+
+(* ------------------------------------------------------------------ C15_all_cycles *)
+Lemma all_cycles_thm : forall s, wf_b s = true ->
+  exists cycles, extract_border_cycle_all s = Some cycles
+    /\ loop_partition s cycles
+    /\ Permutation (concat cycles) (s_bverts s)
+    /\ Forall (fun c => exists start eb, extract_border_cycle s (Some start) = Outcome (CycOk c eb)
+                                        /\ border_cycle_of s start c eb) cycles
+    /\ (forall L, loop_partition s L -> length L = length cycles).
+Proof.
+  intros s Wb. pose proof (wf_b_wf s Wb) as W.
+  destruct (all_cycles_spec s W) as [cycles [E [P [Pm G]]]]. exists cycles.
+  split; [exact E|]. split; [exact P|]. split; [exact Pm|]. split.
+  - eapply Forall_impl; [|exact G]. intros c [st [eb [X Y]]]. exists st, eb. split; [exact X|].
+    now apply is_cycle_border_cycle.
+  - intros L HL. now apply (loop_partition_length s).
+Qed.
+
+(* ------------------------------------------------------------------ C15_boundary *)
+Lemma boundary_thm : forall s, wf_b s = true ->
+  exists cycles p,
+    extract_border_cycle_all s = Some cycles /\ extract_boundary_of_surface s = Some p
+    (* vertices: polyline vertex i carries the coordinates of surface vertex (concat cycles)[i] *)
+    /\ pl_src p = concat cycles
+    (* the returned dict: surface id -> polyline id, a bijection border vertices <-> 0..n-1, consistent with pl_src *)
+    /\ (forall v, In v (s_bverts s) <-> exists i, dict_get v (pl_map p) = Some i)
+    /\ (forall v i, dict_get v (pl_map p) = Some i ->
+          0 <= i < Z.of_nat (length (s_bverts s)) /\ nth (Z.to_nat i) (pl_src p) 0 = v)
+    /\ (forall u v i, dict_get u (pl_map p) = Some i -> dict_get v (pl_map p) = Some i -> u = v)
+    /\ (forall i, 0 <= i < Z.of_nat (length (s_bverts s)) -> exists v, In v (s_bverts s) /\ dict_get v (pl_map p) = Some i)
+    (* edges: exactly the border edges, endpoints renamed through the map, stored as sorted pairs *)
+    /\ Permutation (pl_edges p)
+         (map (fun e => keyify2 (pos (pl_map p) (fst (edge_pair s e))) (pos (pl_map p) (snd (edge_pair s e))))
+              (s_bedges s))
+    (* the "component" attribute at the polyline index of v is the rank of the cycle of v *)
+    /\ (forall k c v, nth_error cycles k = Some c -> In v c ->
+          dict_get (pos (pl_map p) v) (pl_comp p) = Some (Z.of_nat k)).
+Proof.
+  intros s Wb. pose proof (wf_b_wf s Wb) as W.
+  destruct (boundary_spec s W) as [cycles [p [E1 [E2 [E3 [E4 [E5 [E6 E7]]]]]]]].
+  destruct (all_cycles_spec s W) as [cycles' [E1' [[N [Cov F]] [Pm G]]]].
+  rewrite E1 in E1'. inversion E1'; subst cycles'. clear E1'.
+  destruct (enum_bijection (concat cycles) N) as [B1 [B2 [B3 B4]]].
+  assert (Len : length (concat cycles) = length (s_bverts s)) by now apply Permutation_length.
+  exists cycles, p. split; [exact E1|]. split; [exact E2|]. split; [exact E3|].
+  rewrite E4, E3. split; [|split; [|split; [|split; [|split]]]].
+  - intros v. rewrite <- Cov. apply B1.
+  - intros v i H. rewrite <- Len. now apply B2.
+  - exact B3.
+  - intros i Hi. rewrite <- Len in Hi. destruct (B4 i Hi) as [v [Hv Hg]]. exists v. split; [now apply Cov | exact Hg].
+  - rewrite <- E4. exact E7.
+  - intros k c v Hk Hv. rewrite E5. pose proof (comp_from_spec cycles 0 0 k c v N Hk Hv) as Q. exact Q.
+Qed.
+
+(* ------------------------------------------------------------------ C15_features and derived containers *)
+Lemma features_wf_thm : forall m o, wf_f m = true ->
+  NoDup (feature_edges m o)
+  /\ (forall e, In e (feature_edges m o) -> 0 <= e < Z.of_nat (length (f_edges m)))
+  /\ (forall e, 0 <= e < Z.of_nat (length (f_edges m)) -> (In e (f_bedges m) <-> dot_of m e = None)).
+Proof.
+  exact (fun m o W => conj (feature_edges_NoDup m o) (conj (feature_edges_range m o W) (fun e => wf_f_border m e W))).
+Qed.
+
+Lemma feature_vertices_thm : forall m o v,
+  (In v (feature_vertices m o) <->
+     exists e, In e (feature_edges m o) /\ (v = fst (fedge_at m e) \/ v = snd (fedge_at m e)))
+  /\ NoDup (feature_vertices m o).
+Proof. exact (fun m o v => conj (feature_vertices_spec m o v) (verts_of_NoDup m _)). Qed.
+
+Lemma feature_degrees_thm : forall m o v,
+  getd v (feature_degrees m o) = total m v (feature_edges m o)
+  /\ (dict_get v (feature_degrees m o) <> None <-> In v (feature_vertices m o)).
+Proof. exact (fun m o v => conj (feature_degrees_spec m o v) (feature_degrees_keys m o v)). Qed.
+
+Lemma local_feat_edges_thm : forall m o,
+  map fst (local_feat_edges m o) = feature_vertices m o
+  /\ (forall v j, In j (local_feat_edges_of m (feature_edges m o) v)
+        <-> exists k e, j = Z.of_nat k /\ nth_error (znth (f_v2e m) v []) k = Some (Some e)
+                        /\ In e (feature_edges m o)).
+Proof. exact (fun m o => conj (local_feat_edges_keys m o) (local_feat_edges_spec m o)). Qed.
+
+Lemma degree_is_local_count_thm : forall m o v, wf_f m = true -> 0 <= v < f_nV m ->
+  getd v (feature_degrees m o) = Z.of_nat (length (local_feat_edges_of m (feature_edges m o) v)).
+Proof. exact (fun m o v W Hv => degree_is_local_count m o v W Hv (feature_edges_range m o W)). Qed.
+
+(* ------------------------------------------------------------------ non-vacuity: a concrete well-formed surface *)
+(* two triangles [1,7,5], [4,2,3] (two border loops) plus a square with a chord, tables as mouette builds them *)
+Definition ex_surf : surf :=
+  mkSurf 8 [[]; [5; 7]; [4; 3]; [2; 4]; [3; 2]; [7; 1]; []; [1; 5]]
+         [false; true; true; true; true; true; false; true] [1; 2; 3; 4; 5; 7]
+         [(2, 4); (3, 4); (1, 7); (1, 5); (5, 7); (2, 3)] [0; 1; 2; 3; 4; 5].
+
+Example ex_surf_wf : wf_b ex_surf = true.
+Proof. vm_compute. reflexivity. Qed.
+
+Example ex_surf_cycles : extract_border_cycle_all ex_surf = Some [[1; 5; 7]; [2; 4; 3]].
+Proof. vm_compute. reflexivity. Qed.
+
+(* faces [0,1,3],[3,1,5]: the interior edge 1-3 is a CHORD (joins two border vertices); vertices 0 and 5 have a
+   single face; one loop of 4 vertices. The walk from 0 never takes the chord. *)
+Definition ex_chord : surf :=
+  mkSurf 6 [[3; 1]; [0; 3; 5]; []; [5; 1; 0]; []; [1; 3]]
+         [true; true; false; true; false; true] [0; 1; 3; 5]
+         [(0, 1); (1, 3); (0, 3); (1, 5); (3, 5)] [0; 2; 3; 4].
+
+Example ex_chord_wf : wf_b ex_chord = true.
+Proof. vm_compute. reflexivity. Qed.
+
+Example ex_chord_cycle :
+  extract_border_cycle ex_chord (Some 0) = Outcome (CycOk [0; 3; 5; 1] [Some 2; Some 4; Some 3; Some 0]).
+Proof. vm_compute. reflexivity. Qed.
+
+(* ------------------------------------------------------------------ C15_cycle_unsorted_refuted (for the record) *)
+(* tables mouette builds with config.sort_neighborhoods = False for the faces [[7,8,5],[6,8,7,1,2,3,4,0]]:
+   the walk follows the interior chord 7-8 (edge 0) and revisits vertices. Outside the property's quantifier. *)
+Definition ex_unsorted : surf :=
+  mkSurf 9 [[4; 6]; [2; 7]; [1; 3]; [2; 4]; [0; 3]; [8; 7]; [8; 0]; [8; 1; 5]; [5; 6; 7]]
+         [true; true; true; true; true; true; true; true; true] [0; 1; 2; 3; 4; 5; 6; 7; 8]
+         [(7, 8); (5, 8); (5, 7); (6, 8); (1, 7); (1, 2); (2, 3); (3, 4); (0, 4); (0, 6)] [1; 2; 3; 4; 5; 6; 7; 8; 9].
+
+Lemma cycle_unsorted_refuted :
+  exists s start vb eb,
+    In start (s_bverts s) /\ extract_border_cycle s (Some start) = Outcome (CycOk vb eb)
+    /\ ~ NoDup vb /\ In (Some 0) eb /\ ~ In 0 (s_bedges s) /\ wf_b s = false.
+Proof.
+  exists ex_unsorted, 0, [0; 4; 3; 2; 1; 7; 8; 5; 7; 8], (map Some [8; 7; 6; 5; 4; 0; 1; 2; 0; 1]).
+  split; [now left|]. split; [vm_compute; reflexivity|]. split; [|split; [|split]].
+  - intros N. pose proof (proj1 (NoDup_count_occ Z.eq_dec _) N 7) as Q. vm_compute in Q. lia.
+  - simpl. tauto.
+  - simpl. intuition lia.
+  - vm_compute. reflexivity.
+Qed.
+
+(* ------------------------------------------------------------------ features: non-vacuity *)
+(* a hinge: faces [0,1,2],[1,0,3] with normals (0,0,1) and (0,3/5,4/5)-like (n1.n2 = 3/4), edge 0 = (0,1) declared hard *)
+Definition ex_fmesh : fmesh :=
+  mkF 4 [(0, 1); (1, 2); (0, 2); (0, 3); (1, 3)]
+      [(Some 0, Some 1); (Some 0, None); (None, Some 0); (Some 1, None); (None, Some 1)]
+      [1; 2; 3; 4] (Some [0]) [(0, 0, 1)%Q; (0, 1 # 2, 3 # 4)%Q]
+      [[Some 2; Some 0; Some 3]; [Some 4; Some 0; Some 1]; [Some 1; Some 2]; [Some 3; Some 4]] [1; 1; 1 # 2; 1 # 2]%Q.
+
+Example ex_fmesh_wf : wf_f ex_fmesh = true.
+Proof. vm_compute. reflexivity. Qed.
+
+(* n1.n2 = 3/4 lies between the thresholds: flagged because the edge is declared hard, not by the 60-degree rule *)
+Example ex_fmesh_features :
+  feature_edges ex_fmesh (mkO false true 4) = [0; 1; 2; 3; 4]
+  /\ feature_edges (mkF 4 (f_edges ex_fmesh) (f_e2f ex_fmesh) (f_bedges ex_fmesh) None (f_normals ex_fmesh)
+                        (f_v2e ex_fmesh) (f_half ex_fmesh)) (mkO false true 4) = [1; 2; 3; 4]
+  /\ feature_edges ex_fmesh (mkO true true 4) = [1; 2; 3; 4].
+Proof. vm_compute. repeat split. Qed.
+
+Example ex_fmesh_sharp : sharp_edge ex_fmesh 0 -> False.
+Proof. intros [d [E H]]. vm_compute in E. inversion E; subst. vm_compute in H. discriminate. Qed.
+
+Example ex_fmesh_hard : hard_edge ex_fmesh 0.
+Proof.
+  eexists [0], _. split; [reflexivity|]. split; [now left|]. split; [vm_compute; reflexivity|].
+  vm_compute. reflexivity.
 Qed.
